@@ -40,7 +40,7 @@ pub fn assumptions() -> Vec<String> {
         "a training failure that depends on the data (power method not converged, Platt not converged, JL dimension larger than the feature count) is an accepted outcome when the unchecked builder and the checked form fail with the same text",
         "history cases: a builder is configured with a first assignment, one of {check_ref, check on a copy, the training entry point} runs on it (outcome ignored), then the same builder (or a clone taken afterwards) is re-configured through its setters; verdict, error text, checked value, builder equality and training result must equal those of a fresh builder configured directly with the second assignment. Parameters that can only be given to the constructor (k-means / GMM n_clusters, DBSCAN / OPTICS min_points) are equal in both assignments. The first training run only happens when the first assignment lies in the trainable intervals",
         "SVM history cases with an odd seed: the first life selects the other of the two mutually exclusive variants (Nu 0.4 resp. C weights (7, 3), always valid) with the solver eps / Platt values of the first assignment; the setter under test must displace it (checked value: the other variant must read back as None, as the setters' code and the 'either C or Nu' docs promise). The valid/invalid label of the first assignment of those cases refers to the row's own table and is approximate for the non-trivial count",
-        "enum / bool valued builder options are extra dimensions of every row that has them (k-means init method, DBSCAN / OPTICS nearest-neighbour algorithm, GMM init method, elastic-net / logistic with_intercept, Tweedie link and fit_intercept, SVM kernel and shrinking, tree split quality and max depth, hierarchical linkage method, PLS algorithm and scale, FastICA gfunc, count vectoriser convert_to_lowercase and normalize); they have no range of their own, the expected verdict comes from the numeric table only, i.e. it must be independent of them. No doc comment states a cross-constraint between an option and a numeric range (PLS: 'max_iterations ... when algorithm=Nipals. Ignored otherwise' says the value is ignored, not that it is unchecked). Training is not run with SVM shrinking (C13's subject) nor with an explicit identity / logit Tweedie link",
+        "enum / bool valued builder options are extra dimensions of every row that has them (k-means init method, DBSCAN / OPTICS nearest-neighbour algorithm, GMM init method, elastic-net / logistic with_intercept, Tweedie link and fit_intercept, SVM kernel and shrinking, tree split quality and max depth, hierarchical linkage method, PLS algorithm and scale, FastICA gfunc, count vectoriser convert_to_lowercase and normalize); they have no range of their own, the expected verdict comes from the numeric table only, i.e. it must be independent of them. No doc comment states a cross-constraint between an option and a numeric range (PLS: 'max_iterations ... when algorithm=Nipals. Ignored otherwise' says the value is ignored, not that it is unchecked). Training is not run with SVM shrinking (C13's subject), with the k-means|| initialisation (not reproducible from run to run, C20's subject) nor with an explicit identity / logit Tweedie link",
         "count vectoriser tokenizer parameter: 0 = default regex, 1 = the regex \\b[^ ][^ ]+\\b, 2 = the invalid regex '[' (documented: 'Returns an error if the regex expression for the split is invalid'), 3 = a function tokenizer",
         "linfa_clustering::AppxDbscan is an alias of Dbscan in the pinned tree (its own hyperparams module is not compiled), so it has no separate row",
     ]
@@ -104,8 +104,9 @@ mod clustering {
                     p("n_runs", CountGe(1), 10.0, &[3.0], (1.0, 10.0)),
                     p("tolerance", Gt(0.0), 1e-4, &[0.37], (TINY, 10.0)),
                     p("max_n_iterations", CountGe(1), 300.0, &[7.0], (1.0, 300.0)),
-                    // 0 k-means++, 1 random, 2 k-means||, 3 precomputed centroids (n_clusters rows of the data)
-                    opt("init_method", 4, 3.0),
+                    // 0 k-means++, 1 random, 2 precomputed centroids (n_clusters rows of the data), 3 k-means|| (never trained
+                    // with: its result differs from run to run, which is C20's subject)
+                    opt("init_method", 4, 2.0),
                 ],
                 ctor: &[0],
                 cross: no_cross,
@@ -167,13 +168,13 @@ mod clustering {
             let init = match cnt(v, 4) {
                 0 => KMeansInit::KMeansPlusPlus,
                 1 => KMeansInit::Random,
-                2 => KMeansInit::KMeansPara,
-                _ => {
-                    // every other row first, so that the centroids come from both blobs
+                2 => {
+                    // rows from both blobs
                     let k = cnt(v, 0).min(12);
                     let rows: Vec<usize> = (0..k).map(|i| (i * 7) % 12).collect();
                     KMeansInit::Precomputed(x0.select(ndarray::Axis(0), &rows))
                 }
+                _ => KMeansInit::KMeansPara,
             };
             b.n_runs(cnt(v, 1)).tolerance(at(v, 2)).max_n_iterations(cnt(v, 3) as u64).init_method(init)
         };
@@ -338,12 +339,13 @@ mod linear {
                 params: vec![
                     p("alpha", Ge(0.0), 1.0, &[0.1], (0.0, 10.0)),
                     p("power", NotOpen(0.0, 1.0), 1.0, &[1.5, 2.0, 3.0], (0.0, 3.0)),
-                    // 0 link chosen from the power (default), 1 identity, 2 log, 3 logit. The docs state no power x link
+                    // 0 link chosen from the power (default), 1 log, 2 identity, 3 logit. The docs state no power x link
                     // constraint for checking; training runs with the automatic link and with log (targets are positive)
-                    opt("link", 4, 0.0),
+                    opt("link", 4, 1.0),
                     opt("fit_intercept", 2, 1.0),
                 ],
-                ctor: NONE,
+                // the link can be set but not unset: it is equal in both assignments of a history case
+                ctor: &[2],
                 cross: no_cross,
                 narrow: no_narrow,
                 run: tweedie,
@@ -395,8 +397,8 @@ mod linear {
             let b = b.alpha(at(v, 0)).power(at(v, 1)).fit_intercept(cnt(v, 3) == 0);
             match cnt(v, 2) {
                 0 => b,
-                1 => b.link(linfa_linear::Link::Identity),
-                2 => b.link(linfa_linear::Link::Log),
+                1 => b.link(linfa_linear::Link::Log),
+                2 => b.link(linfa_linear::Link::Identity),
                 _ => b.link(linfa_linear::Link::Logit),
             }
         },
